@@ -538,11 +538,17 @@ def culprit_of(a, b) -> str:
                      "dependent_variables", "observation_transformation"):
             x, y = getattr(a, name), getattr(b, name)
             if bad(x, y):
-                return culprit_of(x, y) if name == "statements" else type(x).__name__
+                return culprit_of(x, y) if name in ("statements", "datainfo") else type(x).__name__
         da, db = a._dataset, b._dataset
         if (da is None) != (db is None) or (da is not None and digest_df(da) != digest_df(db)):
             return "Model.dataset"
         return "Model"
+    if type(a).__name__ == "DataInfo":
+        if len(a) == len(b):
+            for x, y in zip(a, b):
+                if bad(x, y):
+                    return "ColumnInfo"
+        return "DataInfo"
     if type(a).__name__ == "Statements":
         if len(a) == len(b):
             for x, y in zip(a, b):
@@ -828,7 +834,7 @@ def special_call(fname: str, pm, m, I: Info, variant: int):
             return (m, m.dataset.iloc[:20].copy()), {}, {"path_or_df": "first 20 rows (copy)"}
         if variant == 1:
             return (m, m.dataset), {}, {"path_or_df": "model.dataset itself"}
-        return (m, str(I.m.datainfo.path)), {}, {"path_or_df": "datainfo.path"}
+        return (m, str(I.m.datainfo.path)), {"datatype": "nonmem"}, {"path_or_df": "datainfo.path", "datatype": "nonmem"}
     raise KeyError(fname)
 
 
